@@ -268,6 +268,15 @@ func (in *Instance) build(ctx context.Context, g *Graph) (builder, error) {
 				in.received(idx, tagsX(opts))
 				return v, nil
 			}), name)
+		case "O", "I":
+			keyOpt := compose.WithOutputKey("k")
+			if n.Kind == "I" {
+				keyOpt = compose.WithInputKey("k")
+			}
+			b.lambda(n.Key, compose.InvokableLambdaWithOption(func(ctx context.Context, v L, opts ...optX) (L, error) {
+				in.received(idx, tagsX(opts))
+				return v, nil
+			}), name, keyOpt)
 		case "Y":
 			b.lambda(n.Key, compose.TransformableLambdaWithOption(func(ctx context.Context, v *schema.StreamReader[L], opts ...optY) (*schema.StreamReader[L], error) {
 				in.received(idx, tagsY(opts))
@@ -307,7 +316,14 @@ func (in *Instance) build(ctx context.Context, g *Graph) (builder, error) {
 			if err != nil {
 				return nil, err
 			}
-			b.graph(n.Key, sb.any(), name)
+			switch n.Keyed {
+			case 'o':
+				b.graph(n.Key, sb.any(), name, compose.WithOutputKey("k"))
+			case 'i':
+				b.graph(n.Key, sb.any(), name, compose.WithInputKey("k"))
+			default:
+				b.graph(n.Key, sb.any(), name)
+			}
 		}
 	}
 	if err := b.finish(); err != nil {
